@@ -177,6 +177,7 @@ func (p *Program) declResults(prop string, cfg *PropConfig, results []*FuncResul
 		}
 		spec := *c
 		spec.Kind = "spec"
+		spec.IfaceCheck = true
 		spec.Name = cname
 		spec.Params = []string{"recv"}
 		for k := 0; k < msig.Params().Len(); k++ {
